@@ -160,9 +160,8 @@ impl CharStringExt for [char] {
 
 # ---- VecExt::remove_indices under contract -----------------------------------------------------
 # Verus forbids `requires` on an impl method, so the contract sits on the trait through two spec
-# members that the Vec<T> impl defines. The body (Vec::retain with a stateful closure) is outside
-# Verus; its contract is ASSUMED here and checked by the exhaustive bounded contract run
-# (rac:remove_indices) of the C13/C02 checks.
+# members that the Vec<T> impl defines. The body (Vec::retain with a stateful closure) is verified in
+# unit `vec_ext` through desugaring R9; the callers' units see the contract only.
 VECEXT_VOCAB = '''
 pub open spec fn incr(s: Seq<usize>) -> bool { forall|a: int, b: int| 0 <= a < b < s.len() ==> s[a] < s[b] }
 pub open spec fn incr_int(s: Seq<int>) -> bool { forall|a: int, b: int| 0 <= a < b < s.len() ==> s[a] < s[b] }
@@ -220,13 +219,16 @@ REMOVE_INDICES = dict(requires=['old(self).ri_pre(to_remove@)'], ensures=['Self:
 
 
 def add_vecext(U, props):
+    """the callers' view of VecExt::remove_indices: contract only (modular verification). The body is verified against
+    this very contract (REMOVE_INDICES + VECEXT_IMPL_MEMBERS, shared text) in unit `vec_ext`, which every property that
+    uses a caller's unit also runs."""
     U.raw(VECEXT_VOCAB, name='spec:removed')
     U.trait('harper-core/src/vec_ext.rs', 'trait VecExt', {'remove_indices': dict(REMOVE_INDICES)},
             extra_members=VECEXT_TRAIT_MEMBERS, supertrait=': Sized')
     U.impl('harper-core/src/vec_ext.rs', 'impl<T> VecExt for Vec<T>',
-           {'remove_indices': dict(external_body=True, props=list(props),
+           {'remove_indices': dict(external_body=True, props=list(props), proved_in='vec_ext',
                                    assumed='removed(old(self)@, to_remove@, final(self)@) and, equivalently, final(self)@ == keepseq(old(self)@, to_remove@, len): the vector with exactly the listed positions deleted, given strictly increasing in-range indices',
-                                   note='body = Vec::retain with a stateful closure: rejected by Verus, CBMC out of memory; checked by bounded-rac only')},
+                                   note='callee contract; body verified in unit vec_ext (desugaring R9 of Vec::retain)')},
            extra_members=VECEXT_IMPL_MEMBERS)
 
 
